@@ -379,6 +379,21 @@ pub fn check_cli(case: &Case, w: usize) -> CheckResult {
     Ok(info)
 }
 
+/// Many tasks in one group: 2 x n streams of one or two short lines each, for n just below and
+/// above 64, 128 and 256 (the streams are spread over two compressor threads).
+pub fn many_streams() -> Vec<Case> {
+    let mut v = vec![];
+    for (k, n) in [63usize, 65, 127, 129, 255, 257, 320].into_iter().enumerate() {
+        let mut streams = vec![];
+        for i in 0..n {
+            streams.push(vec![Step::W(format!("out of task {}\n", i).into_bytes()), Step::P(if i % 7 == 0 { 600 } else { 0 }), Step::W(format!("second line of task {}\n", i).into_bytes())]);
+            streams.push(vec![Step::W(format!("err of task {}\n", i).into_bytes())]);
+        }
+        v.push(Case { streams, rng_seed: 11 + k as u64 });
+    }
+    v
+}
+
 pub fn golden() -> Vec<Case> {
     vec![
         Case {
@@ -398,7 +413,7 @@ pub fn golden() -> Vec<Case> {
 }
 
 pub fn run(ctx: &mut Ctx) {
-    ctx.rule = "1-4 concurrent tasks = 2-8 streams, each a script of writes (short lines, partial lines, lines > 8 KiB and > 64 KiB, 130-600 KB of poorly compressible text or binary (several zstd blocks), no final newline, binary with NUL/CR/invalid UTF-8/escape bytes, bare \
+    ctx.rule = "1-4 concurrent tasks = 2-8 streams (plus fixed in-process cases with 63-320 tasks), each a script of writes (short lines, partial lines, lines > 8 KiB and > 64 KiB, 130-600 KB of poorly compressible text or binary (several zstd blocks), no final newline, binary with NUL/CR/invalid UTF-8/escape bytes, bare \
 newlines, multi-line chunks, CRLF, unicode) and pauses biased around the 500 ms flush interval (499/500/501/700/1000/1200, mid-line included). in-process: the real process_reader + Compressor through the capture hook \
 under tokio's paused clock with a seeded select order; real time: the same scripts executed by helper processes under `monorail run`, files located through the result document, `log show` parsed into blocks. \
 oracle: every stored .zst decodes to exactly the concatenation of that stream's writes; log show prints exactly one header per non-empty log followed by those bytes. \
@@ -409,6 +424,7 @@ non-trivial = a pause >= 500 ms inside a line, a line > 64 KiB, binary data, or 
         "real-time variant judges only tasks reported `success`".into(),
     ];
     ctx.drive_all("golden-inproc", golden(), "golden regression cases", check_inproc);
+    ctx.drive_all("many-streams-inproc", many_streams(), "255-640 streams on one compressor (around 128 and 256 streams per thread)", check_inproc);
     let n = ctx.n(3000, 200_000);
     ctx.drive("inproc", || strategy(4, 10), n, check_inproc);
     ctx.drive_all("golden-cli", golden(), "golden regression cases (real time)", check_cli);
